@@ -36,6 +36,7 @@ func main() {
 	replay := flag.String("replay", "", "replay file: re-run one recorded input against the implementation")
 	worker := flag.Bool("worker", false, "worker mode: execute work items from stdin in this fresh process")
 	flag.Parse()
+	installGlobalFatalTrap()
 	if flag.NArg() != 1 {
 		fmt.Fprintln(os.Stderr, "usage: harness [-tier T] [-seed N] [-out DIR] [-replay F] <property>")
 		os.Exit(2)
